@@ -185,6 +185,34 @@ theorem call_resolves (inv : Inv) (h : inv.args ≠ []) (e : Expansion) (he : ex
     unfold resolveCallG resolveG
     rw [if_neg (by simp), if_pos hm]
 
+/-- Long-running use. For ANY number of closures alive at once (each a supported invocation with any abstract body - early exits
+    included, `ret` may sit at any node - and any recursion budget) and ANY history of outer calls of any length, in any
+    interleaving, started in any store: the generated closures and the explicit recursive functions return the same results
+    in the same order and leave the same final store, or the history ends at the same call with the same error (out of fuel =
+    the recursion is too deep for the stack: at the same depth on both sides). -/
+theorem history_eq_explicit (ls : List Live) (h : ∀ l ∈ ls, Supported l.inv) (evs : List Event) (s : Store) :
+    histG ls evs s = histE ls evs s :=
+  histG_eq_histE ls h evs s
+
+/-- No hidden state. What a history of generated closures does after a prefix `evs₁` depends on the prefix only through the
+    store (the captured variables) it left: running `evs₁ ++ evs₂` is running `evs₁` and then `evs₂` from that store - however
+    long `evs₁` was and however its calls ended (at whatever node of the body). So nothing can be accumulated across calls
+    outside the captured variables: no counter, guard or cache of the expansion survives a call. The same holds (by definition)
+    for the explicit recursion. -/
+theorem history_no_hidden_state (ls : List Live) (evs₁ evs₂ : List Event) (s : Store) :
+    histG ls (evs₁ ++ evs₂) s = histThen (histG ls evs₁ s) (histG ls evs₂) ∧
+    histE ls (evs₁ ++ evs₂) s = histThen (histE ls evs₁ s) (histE ls evs₂) :=
+  ⟨histG_append ls evs₂ evs₁ s, histE_append ls evs₂ evs₁ s⟩
+
+/-- Same depth: the generated closure runs out of recursion budget exactly when the explicit recursion does - the expansion
+    adds no activation of its own and no limit of its own - and with any larger budget both succeed alike. -/
+theorem same_depth (inv : Inv) (hs : Supported inv) (e : Expansion) (he : expand inv = some e)
+    (body : Body) (fuel : Nat) (vs : List Val) (s : Store) :
+    (closureG e body fuel vs s = .error .fuel ↔ evalE inv body fuel vs s = .error .fuel) ∧
+    (∀ r, closureG e body fuel vs s = .ok r ↔ evalE inv body fuel vs s = .ok r) := by
+  rw [generated_eq_explicit inv hs e he body fuel vs s]
+  exact ⟨Iff.rfl, fun _ => Iff.rfl⟩
+
 /-! ## Non-vacuity: concrete non-trivial instances of the hypotheses and of the conclusions -/
 
 /-- `rec_lambda!(f, |x: &mut X, y: &Y, z: &mut Z, w: &W| { |a: A, b: B| -> i64 { … } })`. -/
@@ -279,5 +307,35 @@ example : resolveCallG "a" (specExpansion sampleInv) "a" = .param "a" := by deci
 -- a `let` of the body called like the inner fn shadows it for the user's own uses only, not for the recursive call.
 example : resolveG "t" (specExpansion sampleInv) ["t"] "t" = .loc "t" ∧ resolveCallG "t" (specExpansion sampleInv) "t" = .hiddenFn := by
   decide
+
+-- history_eq_explicit / history_no_hidden_state: two closures alive at once (the second one over captures of its own, `p`/`q`,
+-- with a body that leaves EARLY - `ret` before the write - for even arguments), five outer calls interleaved.
+def secondInv : Inv := { caps := [("p", true), ("q", false)], args := ["n"], ret := some "i64" }
+
+def earlyBody : Body :=
+  .read "n" fun n => .read "q" fun q =>
+  if n ≤ 0 then .ret q                                            -- early exit in the base case
+  else .read "p" fun p =>
+    if n % 2 = 0 then .call false [n - 1] fun r => .ret (r + 1)    -- early exit: leaves before the write below
+    else .write "p" (p + n) (.call true [n - 1] fun r => .ret (r * 2))
+
+def sampleLive : List Live := [⟨sampleInv, sampleBody, 10⟩, ⟨secondInv, earlyBody, 10⟩]
+def sampleEvents : List Event := [(1, [3]), (0, [2, 1]), (1, [4]), (0, [3, 0]), (1, [0])]
+def sampleStore2 : Store := fun n => if n = "p" then 5 else if n = "q" then 7 else sampleStore n
+
+def observeH (r : Except Err (List Val × Store)) : Option (List Val × Val × Val × Val) :=
+  match r with
+  | .ok (rs, st) => some (rs, st "x", st "z", st "p")
+  | .error _ => none
+
+example : ∀ l ∈ sampleLive, Supported l.inv := by decide
+example : observeH (histE sampleLive sampleEvents sampleStore2) = some ([30, 99, 31, 710, 7], 3603666, 2730, 13) := by decide
+example : observeH (histG sampleLive sampleEvents sampleStore2) = some ([30, 99, 31, 710, 7], 3603666, 2730, 13) := by decide
+-- a history really ends where the stack budget does, for both alike (same_depth): depth 4 needs fuel 5.
+example : (match histG [⟨secondInv, earlyBody, 4⟩] [(0, [1]), (0, [4])] sampleStore2 with | .error .fuel => true | _ => false) = true := by decide
+example : (match histE [⟨secondInv, earlyBody, 4⟩] [(0, [1]), (0, [4])] sampleStore2 with | .error .fuel => true | _ => false) = true := by decide
+-- ... and the model does tell a closure with hidden state from one without: nothing but the store is threaded through `histG`,
+-- so a call's result is a function of the store it starts in - the same call in the same store twice gives the same result,
+example : observeH (histG sampleLive [(1, [0]), (1, [0])] sampleStore2) = some ([7, 7], 1, 100, 5) := by decide
 
 end Rlib.C20
